@@ -212,6 +212,14 @@ Together these are necessary conditions for byte-identical output under repetiti
                     &format!("Validator.tlds has type `{}`; the definitions map must be an ordered map keyed by name so that linking and output follow key order, not source order", t));
             }
             ctx.sample(json!({"Validator.tlds": t}));
+            // no other state of the validator is ordered by input position or by hash
+            for (n, t, _) in s.fields.iter() {
+                ctx.oblige("C11.order", &format!("Validator.{}", n), true);
+                if ["Vec<", "VecDeque<", "HashMap<", "HashSet<", "LinkedList<", "IndexMap<", "IndexSet<"].iter().any(|p| t.starts_with(p) || t.contains(&format!("::{}", p))) {
+                    ctx.violate("C11.order", &format!("validator-state-in-input-order:{}", n), &s.file, s.line,
+                        &format!("Validator.{} has type `{}`: state of the linker that is ordered by input position (or by hash) makes the order in which definitions are linked — and with it what a definition sees of the others — depend on the order of assignments, modules and sources", n, t));
+                }
+            }
         }
         Err(e) => ctx.fail_closed("C11.order", &e),
     }
@@ -233,6 +241,52 @@ Together these are necessary conditions for byte-identical output under repetiti
         }
     } else {
         ctx.fail_closed("C11.order", "anchor not found: internal_compile");
+    }
+    // the work list of Validator::link is derived from the name-keyed map and from nothing else
+    if let Ok(f) = m.find_fn(Some("Validator"), "link", None) {
+        ctx.func(&f.key);
+        struct W { pops: Vec<String>, lets: Vec<(Vec<String>, String)> }
+        impl model::DeepCb for W {
+            fn expr(&mut self, e: &syn::Expr) {
+                if let syn::Expr::While(w) = e {
+                    if let syn::Expr::Let(l) = &*w.cond {
+                        if let syn::Expr::MethodCall(mc) = &*l.expr {
+                            if mc.method == "pop" || mc.method == "pop_front" || mc.method == "pop_back" || mc.method == "next" {
+                                self.pops.push(tok(&mc.receiver));
+                            }
+                        }
+                    }
+                }
+            }
+            fn local(&mut self, l: &syn::Local) {
+                if let Some(init) = &l.init {
+                    let mut names = vec![];
+                    model::collect_idents(&quote::ToTokens::to_token_stream(&l.pat), &mut names);
+                    self.lets.push((names, tok(&init.expr)));
+                }
+            }
+        }
+        let mut w = W { pops: vec![], lets: vec![] };
+        model::deep_walk_block(&f.block, &mut w);
+        ctx.oblige("C11.order", "link.work-list", true);
+        match w.pops.first() {
+            None => ctx.fail_closed("C11.order", "Validator::link: no `while let Some(..) = <work list>.pop()` loop"),
+            Some(wl) => {
+                let init = w.lets.iter().find(|(names, _)| names.iter().any(|n| n == wl)).map(|(_, i)| i.clone());
+                match init {
+                    None => ctx.fail_closed("C11.order", &format!("Validator::link: the work list `{}` has no initialiser", wl)),
+                    Some(init) => {
+                        let fields: std::collections::BTreeSet<String> = init.match_indices("self.").filter_map(|(i, _)| init[i + 5..].split(|c: char| !(c.is_alphanumeric() || c == '_')).next().map(|x| x.to_string())).collect();
+                        if !fields.contains("tlds") || fields.iter().any(|x| x != "tlds") {
+                            ctx.violate("C11.order", "link-work-list-not-from-name-order", &f.file, f.line,
+                                &format!("Validator::link pops its work list `{}` from `{}` (reads self.{{{}}}): the order in which definitions are linked must be the key order of the definitions map, the only order that does not depend on where a definition stands in the input", wl, init.chars().take(120).collect::<String>(), fields.iter().cloned().collect::<Vec<_>>().join(", ")));
+                        }
+                    }
+                }
+            }
+        }
+    } else {
+        ctx.fail_closed("C11.order", "anchor not found: Validator::link");
     }
     if let Ok(f) = m.find_fn(Some("Validator"), "validate", None) {
         ctx.func(&f.key);
